@@ -305,6 +305,7 @@ class Global:
         self.init = init
         self.const = const
         self.external = external
+        self.thread_local = False
 
 
 class Module:
@@ -901,10 +902,13 @@ def _parse_global(ln, mod):
     name = _unq(p.next()[1])
     p.expect("=")
     external = False
+    tls = False
     while p.peek()[0] == "word" and p.peek()[1] in _LINKAGE:
         if p.peek()[1] in ("external", "extern_weak"):
             external = True
         v = p.next()[1]
+        if v == "thread_local":
+            tls = True
         if v == "thread_local" and p.peek()[1] == "(":
             while p.next()[1] != ")":
                 pass
@@ -923,6 +927,7 @@ def _parse_global(ln, mod):
     if not p.at_end() and p.peek()[1] != ",":
         init = p.value(t)
     mod.globals[name] = Global(name, t, init, const, external and init is None)
+    mod.globals[name].thread_local = tls
 
 
 def _parse_fhead(ln, mod):
